@@ -30,6 +30,9 @@ pub struct Model {
     /// The raw AST (what `pest_optimizer = false` compiles) and the getter shapes it asks for.
     pub raw: Option<Grammar>,
     pub raw_shapes: HashMap<String, BTreeMap<String, String>>,
+    /// rule -> getter -> mention id -> tuple-slot path (optimized / raw AST)
+    pub paths: HashMap<String, BTreeMap<String, BTreeMap<usize, String>>>,
+    pub raw_paths: HashMap<String, BTreeMap<String, BTreeMap<usize, String>>>,
 }
 
 impl Model {
@@ -73,8 +76,10 @@ impl Model {
                 }
                 let shapes = opt.rules.iter().map(|r| (r.name.clone(), refpeg::shape::getter_shapes(r))).collect();
                 let raw = Grammar::raw(text).ok();
+                let paths = opt.rules.iter().map(|r| (r.name.clone(), refpeg::shape::mention_paths(r))).collect();
+                let raw_paths = raw.as_ref().map(|g| g.rules.iter().map(|r| (r.name.clone(), refpeg::shape::mention_paths(r))).collect()).unwrap_or_default();
                 let raw_shapes = raw.as_ref().map(|g| g.rules.iter().map(|r| (r.name.clone(), refpeg::shape::getter_shapes(r))).collect()).unwrap_or_default();
-                Model { raw, raw_shapes, id: id.into(), family: family.into(), opt, error: None, alphabet, small_scope, hostile, kinds, uses_stack, feat_explicit_skip, feat_skip_subrules, shapes }
+                Model { raw, raw_shapes, paths, raw_paths, id: id.into(), family: family.into(), opt, error: None, alphabet, small_scope, hostile, kinds, uses_stack, feat_explicit_skip, feat_skip_subrules, shapes }
             }
             Err(e) => Model {
                 id: id.into(),
@@ -91,6 +96,8 @@ impl Model {
                 shapes: HashMap::new(),
                 raw: None,
                 raw_shapes: HashMap::new(),
+                paths: HashMap::new(),
+                raw_paths: HashMap::new(),
             },
         }
     }
@@ -1311,10 +1318,18 @@ fn c15(ctx: &CaseCtx, obs: &CaseObs, l: &mut Local) {
 // ---------------------------------------------------------------------------------------------
 
 fn c16_compare(ctx: &CaseCtx, n: &NodeObs, model: &Outcome, l: &mut Local, count: bool) -> Vec<(String, String, Value)> {
-    c16_compare_with(ctx, n, model, l, count, &ctx.model.shapes[ctx.rule.name])
+    c16_compare_with(ctx, n, model, l, count, &ctx.model.shapes[ctx.rule.name], ctx.model.paths.get(ctx.rule.name))
 }
 
-fn c16_compare_with(ctx: &CaseCtx, n: &NodeObs, model: &Outcome, l: &mut Local, count: bool, shapes: &BTreeMap<String, String>) -> Vec<(String, String, Value)> {
+fn c16_compare_with(
+    ctx: &CaseCtx,
+    n: &NodeObs,
+    model: &Outcome,
+    l: &mut Local,
+    count: bool,
+    shapes: &BTreeMap<String, String>,
+    paths: Option<&BTreeMap<String, BTreeMap<usize, String>>>,
+) -> Vec<(String, String, Value)> {
     let mut bad = Vec::new();
     for g in &n.getters {
         let want: Vec<&refpeg::Mention> = model.mentions.iter().filter(|m| m.name == g.name).collect();
@@ -1341,6 +1356,21 @@ fn c16_compare_with(ctx: &CaseCtx, n: &NodeObs, model: &Outcome, l: &mut Local, 
                 json!({"getter": g.name, "typed": g.leaves.len(), "expected": want.iter().map(|m| (m.start, m.end)).collect::<Vec<_>>() }),
             ));
             continue;
+        }
+        // each node comes out of the tuple slot that belongs to its mention
+        if let Some(pm) = paths.and_then(|p| p.get(&g.name)) {
+            for (leaf, m) in g.leaves.iter().zip(want.iter()) {
+                if let Some(want_path) = pm.get(&m.mention) {
+                    if *want_path != leaf.path {
+                        bad.push((
+                            "unclassified/C16/slot".to_string(),
+                            format!("getter {}(): the match of mention #{} at {}..{} comes out of tuple slot {:?}, its place in the expression is slot {:?}", g.name, m.mention, m.start, m.end, leaf.path, want_path),
+                            json!({"getter": g.name, "mention": m.mention, "typed_slot": leaf.path, "expected_slot": want_path}),
+                        ));
+                        break;
+                    }
+                }
+            }
         }
         let non_silent_user = matches!(ctx.model.kinds.get(&g.name), Some(k) if *k != Kind::Silent) || g.name == "EOI";
         if non_silent_user {
@@ -1438,7 +1468,7 @@ fn c16_noopt(ctx: &CaseCtx, l: &mut Local) {
             continue;
         }
         l.count("noopt_getter_cases");
-        let bad = c16_compare_with(ctx, n, &m, l, first_bad.is_none(), shapes);
+        let bad = c16_compare_with(ctx, n, &m, l, first_bad.is_none(), shapes, ctx.model.raw_paths.get(ctx.rule.name));
         if bad.is_empty() {
             return;
         }
